@@ -193,7 +193,7 @@ def rule_flatten(ctx):
 def rule_unflatten(ctx):
     fi = ctx.fn(RS + 'unflatten')
     AXIS = P_('axis')
-    ev = run(ctx, fi, facts={('cmp', 'is', AXIS, T.CONST_NONE): False})
+    ev = run(ctx, fi, facts={T.mkcmp('is', AXIS, T.CONST_NONE): False})
     group = ('sub', ('attr', SELF, 'axes'), AXIS)
     k = ('call', ('attr', ('attr', SELF, 'dims'), 'index'), (('attr', group, 'name'),), ())
     n = 0
@@ -231,7 +231,7 @@ def rule_unflatten(ctx):
     else:
         ctx.violated('R2', fi, 'unflatten', 'no coherent returning path')
     # axis=None accumulates
-    ev = run(ctx, fi, facts={('cmp', 'is', AXIS, T.CONST_NONE): True})
+    ev = run(ctx, fi, facts={T.mkcmp('is', AXIS, T.CONST_NONE): True})
     okr = False
     for p in ret_paths(ev):
         for e in p.calls('unflatten'):
